@@ -276,6 +276,62 @@ def check(ctx):
                "R-SIB/length-arith", f"{grp.qual}.pop", grp.where(gp), "Grouped data rebuilt from the remaining members",
                "GroupedType.pop does not rebuild `_data` from the remaining members", key="grouped_rebuild")
 
+    # ---- clause 6: renaming, list replacement and membership queries ---------------------------------------
+    ctx.clause = "6-rename-replace-membership"
+    for ci in (msg, grp):
+        uk = ctx.need(ci.methods.get("update_key"), f"{ci.name}.update_key")
+        params = [a.arg for a in uk.args.args if a.arg != "self"]
+        old_k, new_k = params[0], params[1]
+        moves = [x for x in walk_no_nested(uk) if isinstance(x, ast.Assign) and ast.unparse(x) == f"self.__dict__[{new_k}] = self.__dict__.pop({old_k})"]
+        cfg = make_cfg(repo, uk)
+        okm = len(moves) == 1 and must_pass(cfg, lambda n: n.ast is moves[0])
+        src_uk = ast.unparse(uk)
+        has_pop = f".pop({old_k}" in src_uk or f"del self.__dict__[{old_k}]" in src_uk or f"delattr(self, {old_k}" in src_uk
+        has_set = f"self.__dict__[{new_k}]" in src_uk or f"setattr(self, {new_k}" in src_uk or f"{{{new_k}:" in src_uk
+        if not okm and has_pop and has_set:
+            ctx.undecided("R-ALIAS/rename", f"{ci.qual}.update_key", ci.where(uk),
+                          "old name removed and new name stored, but not in the recognised one-step form", key="move")
+        else:
+          ctx.decide(okm, "R-ALIAS/rename", f"{ci.qual}.update_key", ci.where(uk),
+                   "renaming moves the same object from the old name to the new one",
+                   "update_key does not move the object from the old name to the new one in one step (`self.__dict__[new] = "
+                   "self.__dict__.pop(old)`): a name is left for an unlisted AVP or two names refer to one listed AVP", key="move")
+        guards = {ast.unparse(x.test): [ast.unparse(b) for b in x.body] for x in walk_no_nested(uk) if isinstance(x, ast.If)}
+        okg = any(t == f"not self.has_avp({old_k})" and any("raise" in b for b in bs) for t, bs in guards.items()) and \
+            any(t == f"self.has_avp({new_k})" and any("raise" in b for b in bs) for t, bs in guards.items())
+        ctx.decide(okg, "R-DOM/rename", f"{ci.qual}.update_key", ci.where(uk),
+                   "renaming requires the old name to exist and the new one to be free",
+                   "update_key no longer rejects a missing old name / an already used new name: renaming onto an existing name drops "
+                   "the AVP that owned it from the named view while it stays listed", key="guards")
+        st = ci.props.get("avps", {}).get("set")
+        if st is not None:
+            calls = [call_name(c) for c in fn_calls(st)]
+            okc = "self.cleanup" in calls and ("self.append" in calls or "self.extend" in calls) and \
+                calls.index("self.cleanup") < min([calls.index(x) for x in ("self.append", "self.extend") if x in calls])
+            ctx.decide(okc, "R-MUSTPASS/replace-list", f"{ci.qual}.avps[setter]", ci.where(st),
+                       "replacing the list = cleanup, then append/extend of every new element",
+                       "the avps setter does not rebuild the container through cleanup() followed by append()/extend(): names and "
+                       "length of the previous content survive or the new elements are not named", key="setter")
+            src = ast.unparse(st)
+            ctx.decide("self.extend(value)" in src and "self.append(value[0])" in src, "R-MUSTPASS/replace-list", f"{ci.qual}.avps[setter]",
+                       ci.where(st), "all elements of the new list are appended in order", "the avps setter drops elements of the new list",
+                       key="setter_all", nontrivial=False)
+        ex = ci.methods.get("extend")
+        if ex is not None:
+            loops = [x for x in walk_no_nested(ex) if isinstance(x, ast.For)]
+            oke = len(loops) == 1 and ast.unparse(loops[0].iter) == [a.arg for a in ex.args.args if a.arg != "self"][0] and \
+                [ast.unparse(b) for b in loops[0].body] == [f"self.append({ast.unparse(loops[0].target)})"]
+            ctx.decide(oke, "R-MUSTPASS/replace-list", f"{ci.qual}.extend", ci.where(ex), "extend appends each element in order",
+                       "extend does not append each given element exactly once in order", key="extend")
+        ha = ctx.need(ci.methods.get("has_avp"), f"{ci.name}.has_avp")
+        src = ast.unparse(ha)
+        ctx.decide("in self.__dict__" in src and "if not self.avps" in src, "R-TABLE/membership", f"{ci.qual}.has_avp", ci.where(ha),
+                   "membership consults the name map and an empty list means no member",
+                   "has_avp no longer answers from the name map (and False for an empty list)", key="has_avp", nontrivial=False)
+    gi = ctx.need(msg.methods.get("__getitem__"), "DiameterMessage.__getitem__")
+    ctx.decide("return self._avps[idx]" in ast.unparse(gi), "R-TABLE/membership", f"{msg.qual}.__getitem__", msg.where(gi),
+               "indexing reads the AVP list", "indexing does not read the AVP list", key="getitem", nontrivial=False)
+
     # ---- clause 5: refresh after data writes -----------------------------------------------------
     ctx.clause = "5-refresh-after-data-write"
     up = ctx.need(msg.methods.get("update_avps"), "DiameterMessage.update_avps")
